@@ -37,6 +37,7 @@ type c06World struct {
 	lat      *c06Lat // latency layer below the recording backend (forks only)
 	random   *c06Shape // the token shape drawn for this case ("create-random")
 	neverExpiring bool // the token of the last "usable-token-without-lease" verdict of invariant() is a root token that never expires
+	lastUnleased  string // id of that token
 }
 
 func c06Opts(hub *recHub, transactional bool) coreOpts {
@@ -335,7 +336,7 @@ func (w *c06World) invariant(tokensBefore map[string]bool) (string, string) {
 			continue
 		}
 		if usable && le == nil {
-			w.neverExpiring = rootNoExpiry
+			w.neverExpiring, w.lastUnleased = rootNoExpiry, te.ID
 			return "usable-token-without-lease", fmt.Sprintf("token entry %s (new=%v, path %s) is usable but has no lease record", verifx.Trunc(salted, 12), isNew, te.Path)
 		}
 		// token index -> lease entries
@@ -446,7 +447,7 @@ func (w *c06World) invariant(tokensBefore map[string]bool) (string, string) {
 }
 
 func TestVerif_C06_LeaseFaults(t *testing.T) {
-	rec := verifx.NewRecorder("C06", "lease-faults", "request shapes {leased secret (plain / odd path / batch child / child namespace / response-wrapped / use-limited token), login through a recording credential backend (plain / wrapped / periodic / use-limited), auth/token/create (plain / role / role with path suffix / create-orphan / wrapped), and a table of token shapes (root-policy child without ttl = never expiring, with and without parent, through create-orphan; root policy with ttl or explicit maximum; periodic; use-limited with explicit maximum; no default policy; created in a child namespace by its own token and by the root token) plus one token shape per case composed from the parameter space (creator, endpoint, policies, ttl, explicit maximum, period, uses, no_parent, no_default_policy, wrapping)}; a dry run lists the storage operations of the request - the operations that start inside the request's time window on the request goroutine or on a goroutine the request started (directly or transitively) - and names each by (kind, class of key, occurrence); on a fresh copy per operation that operation fails once: every write of the request, and the reads thinned to 16 (table shapes 8) in the quick tier; for every write once more under a storage latency spike: every Put of the request on a lease or token record is accepted but held until the request has returned or the request has started no other storage operation for 5 ms (50 ms if the write was issued by a helper goroutine; at most 150 ms), and completes regardless of the request context; oracle when the request has returned and every operation it started has come back: a handed-out secret has lease + token index, a handed-out token is usable and leased; after an error no usable token lacks a lease - judged for every token record the request ADDED to the raw storage listing (entry, accessor index, parent index, all namespaces; never-expiring root tokens included), no lease record of a secret whose revocation the backend has seen, no index record naming a lease without record, no accessor/parent record without token entry, lease and index records mutually consistent, every generated secret revoked at the backend or covered by a lease; also crash after every prefix of the request's writes followed by restart; for the secret-generating shapes also 'the client goes away': the request context is cancelled when the k-th storage operation starts; non-trivial = the fault (or crash) fell after the first write of the request or after the backend had produced the secret/auth")
+	rec := verifx.NewRecorder("C06", "lease-faults", "request shapes {leased secret (plain / odd path / batch child / child namespace / response-wrapped / use-limited token), login through a recording credential backend (plain / wrapped / periodic / use-limited), auth/token/create (plain / role / role with path suffix / create-orphan / wrapped), and a table of token shapes (root-policy child without ttl = never expiring, with and without parent, through create-orphan; root policy with ttl or explicit maximum; periodic; use-limited with explicit maximum; no default policy; created in a child namespace by its own token and by the root token) plus one token shape per case composed from the parameter space (creator, endpoint, policies, ttl, explicit maximum, period, uses, no_parent, no_default_policy, wrapping)}; a dry run lists the storage operations of the request - the operations that start inside the request's time window on the request goroutine or on a goroutine the request started (directly or transitively) - and names each by (kind, class of key, occurrence); on a fresh copy per operation that operation fails once: every write of the request, and the reads thinned to 16 (table shapes 8) in the quick tier; for every write once more (and once without any fault) under a storage latency spike: every Put of the request on a lease or token record is accepted but held until the request has returned or the request has started no other storage operation for 5 ms (50 ms if the write was issued by a helper goroutine; at most 150 ms), and completes regardless of the request context; oracle when the request has returned and every operation it started has come back: a handed-out secret has lease + token index, a handed-out token is usable and leased, and if a write of the request was still in flight when it returned the lease record was in storage at that moment; after an error no usable token lacks a lease - judged for every token record the request ADDED to the raw storage listing (entry, accessor index, parent index, all namespaces; never-expiring root tokens included), no lease record of a secret whose revocation the backend has seen, no index record naming a lease without record, no accessor/parent record without token entry, lease and index records mutually consistent, every generated secret revoked at the backend or covered by a lease (records of a token without lease that is refused on use are only counted: classes remnant:*); also crash after every prefix of the request's writes followed by restart; for the secret-generating shapes also 'the client goes away': the request context is cancelled when the k-th storage operation starts; non-trivial = the fault (or crash) fell after the first write of the request or after the backend had produced the secret/auth")
 	defer rec.Flush()
 	rapid.Check(t, func(rt *rapid.T) {
 		txn := rapid.Bool().Draw(rt, "transactionalStorage")
@@ -478,6 +479,14 @@ func (w *c06World) runInjected(kind string, base context.Context, setup func(in 
 	w.lat.cur.Store(in)
 	w.tc.rec.SetFault(in.fault)
 	res := w.requestCtx(kind, base)
+	in.mu.Lock()
+	pending := in.inflight > 0
+	in.mu.Unlock()
+	if pending {
+		// something the request started has not come back from the store yet: what is durable at this moment is
+		// what the client can rely on
+		in.atReturn = w.records()
+	}
 	in.finish()
 	w.tc.rec.SetFault(nil)
 	w.lat.cur.Store(nil)
@@ -576,7 +585,12 @@ func c06RunKind(t *testing.T, rt *rapid.T, rec *verifx.Recorder, txn bool, kind 
 		seqStart := w.tc.rec.Seq()
 		callsBefore := len(w.hub.handlerCalls())
 		tg := target
-		res, in := w.runInjected(kind, w.tc.ctx, func(in *c06Inj) { in.target, in.spike = &tg, spike })
+		res, in := w.runInjected(kind, w.tc.ctx, func(in *c06Inj) {
+			if tg.Cls != "" {
+				in.target = &tg
+			}
+			in.spike = spike
+		})
 		hit := in.hit
 		what, afterWrite, afterBackend := "none", false, false
 		if hit != nil {
@@ -606,6 +620,10 @@ func c06RunKind(t *testing.T, rt *rapid.T, rec *verifx.Recorder, txn bool, kind 
 		if spike {
 			mode = "fault+latency-spike"
 		}
+		after := ":after-fault"
+		if target.Cls == "" {
+			mode, after = "latency-spike", ":under-latency-spike"
+		}
 		detail := map[string]any{"request": shapeDesc, "failed_operation": target.String(), "of_ops": nOps, "failed_op": what, "result": res.String(), "transactional": txn, "storage_ops": oplog,
 			"latency_spike": spike, "writes_held": in.held, "writes_completed_after_return": in.heldLate, "ops_on_helper_goroutines": in.helperOps}
 		rec.Case(kind+":"+mode, afterWrite || afterBackend, verifx.Digest(shapeDesc, txn, target.Cls, target.Occ, what, spike), func() any { return detail })
@@ -619,8 +637,12 @@ func c06RunKind(t *testing.T, rt *rapid.T, rec *verifx.Recorder, txn bool, kind 
 			rec.Class("background-operations-in-window", 1)
 		}
 		if res.ok() {
-			if sig, msg := c06Outcome(w, kind, res); sig != "" {
-				rec.Violation(rt, sig+":after-fault", detail, "%s (request %s, %s at storage operation %s of %d)", msg, shapeDesc, mode, target, nOps)
+			sig, msg := c06Outcome(w, kind, res)
+			if sig == "" {
+				sig, msg = w.durableAtReturn(res, in.atReturn)
+			}
+			if sig != "" {
+				rec.Violation(rt, sig+after, detail, "%s (request %s, %s at storage operation %s of %d)", msg, shapeDesc, mode, target, nOps)
 				return
 			}
 		} else if c06HasCredentials(res) {
@@ -638,7 +660,7 @@ func c06RunKind(t *testing.T, rt *rapid.T, rec *verifx.Recorder, txn bool, kind 
 			time.Sleep(10 * time.Millisecond)
 		}
 		if sig != "" {
-			rec.Violation(rt, sig+":after-fault", detail, "%s (request %s returned %v, %s at storage operation %s of %d = %s)", msg, shapeDesc, res, mode, target, nOps, what)
+			rec.Violation(rt, sig+after, detail, "%s (request %s returned %v, %s at storage operation %s of %d = %s)", msg, shapeDesc, res, mode, target, nOps, what)
 			return
 		}
 		for _, r := range rem {
@@ -656,7 +678,7 @@ func c06RunKind(t *testing.T, rt *rapid.T, rec *verifx.Recorder, txn bool, kind 
 			time.Sleep(5 * time.Millisecond)
 		}
 		if sig != "" {
-			rec.Violation(rt, sig+":after-fault", detail, "%s (request %s returned %v, %s at storage operation %s of %d = %s)", msg, shapeDesc, res, mode, target, nOps, what)
+			rec.Violation(rt, sig+after, detail, "%s (request %s returned %v, %s at storage operation %s of %d = %s)", msg, shapeDesc, res, mode, target, nOps, what)
 		}
 	}
 	maxOther := 16
@@ -664,14 +686,14 @@ func c06RunKind(t *testing.T, rt *rapid.T, rec *verifx.Recorder, txn bool, kind 
 		maxOther = 8
 	}
 	targets := c06PickTargets(ops, verifx.Scale(maxOther, 1<<30), phase)
+	// a latency spike without any fault: what the client receives is durable when it receives it
+	faultRun(c06OpID{}, true)
 	for _, tg := range targets {
 		// the run under a latency spike first: what it finds does not depend on how the goroutines happen to be scheduled
 		if tg.Write || verifx.Thorough() {
 			faultRun(tg, true)
 		}
-		if os.Getenv("C06_DEBUG_SPIKE_ONLY") == "" {
-			faultRun(tg, false)
-		}
+		faultRun(tg, false)
 	}
 
 	// the client goes away: the request context is cancelled when the k-th storage operation starts (that operation
@@ -694,6 +716,10 @@ func c06RunKind(t *testing.T, rt *rapid.T, rec *verifx.Recorder, txn bool, kind 
 						if n == k {
 							hit = o
 							cancel()
+							// the core binds the request's own context to the caller's by context.AfterFunc, which
+							// runs on another goroutine: the server has noticed that the client is gone when this
+							// operation fails
+							time.Sleep(3 * time.Millisecond)
 						}
 						if n >= k && cctx.Err() != nil {
 							return context.Canceled
@@ -758,6 +784,11 @@ func c06RunKind(t *testing.T, rt *rapid.T, rec *verifx.Recorder, txn bool, kind 
 					// an expiring token without lease is revoked by its first use; a root token that never expires
 					// is accepted without one. Its id was never handed out (the server crashed before the response)
 					sig += ":never-expiring-root-token:after-crash"
+					if r := w.tc.req(logical.ReadOperation, "sys/mounts", w.lastUnleased, nil); !r.ok() || r.resp == nil {
+						// not confirmed by a real request of a root-only kind
+						rec.Class("unleased-root-token-after-crash-refused-by-request", 1)
+						return
+					}
 					if len(*deferred) == 0 {
 						*deferred = append(*deferred, func() {
 							rec.Violation(rt, sig, detail, "%s (crash after %d/%d writes of %s, then restart)", msg, k, nMut, shapeDesc)
